@@ -28,10 +28,10 @@ def run(tier, seed):
     sc2, sc3 = [], []
     dl = 600 if tier == "quick" else 1500
     if tier == "quick":
-        for i, m in enumerate(MODELS[:5]):
+        for i, m in enumerate(MODELS[:4]):
             sc2.append(hc.scen(f"r2x1_m{i}", m, T=1, ck=1 + i % 3, p=1, d=1, j=4, deadline=dl))
         sc2.append(hc.scen("r2x2_m3", MODELS[3], T=2, ck=2, p=1, d=0, j=4, deadline=dl))
-        sc2.append(hc.scen("r2x1_m0_d2", MODELS[0], T=1, ck=2, p=0, d=2, j=4, deadline=dl))
+        sc2.append(hc.scen("r2x1_m4_d2", MODELS[4], T=1, ck=2, p=0, d=2, j=4, deadline=dl))
     else:
         for i, m in enumerate(MODELS):
             sc2.append(hc.scen(f"r2x1_m{i}", m, T=1, ck=1 + i % 3, p=1, d=1, j=4, deadline=dl))
